@@ -896,6 +896,86 @@ def check_traversal_new(ctx, rule, ty, site=None):
         ctx.ok(rule, site, 'the lower bound counts the whole tree only for a start at the root; upper bound = node count', b.span)
 
 
+def check_num_nodes(ctx, rule, site):
+    """Tree::num_nodes(node) = the number of items of the depth-first traversal from `node`: `DfsPre::iter(self, node).count()`, or a loop
+    with a counter (walked over traversals of 0, 1 and 2 items)."""
+    bodies = bodies_of(ctx, 'Tree::num_nodes')
+    if len(bodies) != 1:
+        ctx.lost(rule, 'Tree::num_nodes')
+        return
+    b = bodies[0]
+    t = tree(some(A), A=node('A'))
+    results, problems = [], []
+    for n in (0, 1, 2):
+        state = {'i': 0}
+        ext = slab_externals()
+
+        def trav(a):
+            if not (a[0] == t and a[1] == B):
+                raise Unknown('traversal of another tree or from another node')
+            return ('pipe', ('trav',), [])
+
+        def nxt(pipe, n=n, state=state):
+            if pipe[1] != ('trav',) or pipe[2]:
+                raise Unknown('the loop does not run over the plain traversal')
+            state['i'] += 1
+            return some(atom('ITEM%d' % state['i'])) if state['i'] <= n else NONE
+        ext['DfsPre::iter'] = trav
+        ext['Tree::dfs_iter'] = lambda a: (_ for _ in ()).throw(Unknown('dfs_iter starts at the root, not at the given node'))
+        ext['#next'] = nxt
+        try:
+            got = run_case(ctx.facts, b, [t, B], ext)
+        except Unknown as e:
+            problems.append(str(e))
+            break
+        results.append(got)
+    if problems:
+        ctx.undecided(rule, site, 'body outside the case-interpreted fragment (%s)' % problems[0][:200], b.span)
+    elif all(r == ('count', ('pipe', ('trav',), [])) for r in results) or results == [0, 1, 2]:
+        ctx.ok(rule, site, 'counts the items of DfsPre::iter(self, node)', b.span)
+    else:
+        ctx.bad(rule, site, 'does not count the items of the depth-first traversal from the given node (traversals of 0, 1, 2 items give %s)' % [show(r) for r in results], b.span)
+
+
+def check_depth_loop(ctx, rule, site):
+    """Tree::depth() written as a loop: walked over traversals of 0, 1 and 2 items whose depths are ordered either way or equal -- the result
+    is the largest depth delivered (0 for none)."""
+    bodies = bodies_of(ctx, 'Tree::depth')
+    if len(bodies) != 1:
+        ctx.lost(rule, 'Tree::depth')
+        return None
+    b = bodies[0]
+    t = tree(some(A), A=node('A'))
+    D1, D2 = atom('D1'), atom('D2')
+    item = lambda d, k: struct('tree::iter::DfsNodeData', depth=d, index=atom('N%d' % k), n_remaining=atom('R%d' % k))
+    cases = [([], 0), ([D1], D1), ([D1, D2], D2), ([D2, D1], D2), ([D1, D1], D1)]
+    wrong = []
+    for seq, want in cases:
+        state = {'i': 0}
+        ext = slab_externals()
+        ext['#order'] = ['D1', 'D2']
+
+        def trav(a):
+            if a[0] != t:
+                raise Unknown('traversal of another tree')
+            return ('pipe', ('trav',), [])
+
+        def nxt(pipe, seq=seq, state=state):
+            if pipe[1] != ('trav',) or pipe[2]:
+                raise Unknown('the loop does not run over the plain traversal')
+            state['i'] += 1
+            return some(item(seq[state['i'] - 1], state['i'])) if state['i'] <= len(seq) else NONE
+        ext['Tree::dfs_iter'] = trav
+        ext['#next'] = nxt
+        try:
+            got = run_case(ctx.facts, b, [t], ext)
+        except Unknown as e:
+            return 'body outside the case-interpreted fragment (%s)' % str(e)[:160]
+        if got != want:
+            wrong.append('depths [%s] give %s' % (', '.join(show(x) for x in seq), show(got)))
+    return wrong
+
+
 def run(ctx, rule, names):
     for q in names:
         if q in TABLES:
